@@ -362,6 +362,24 @@ func Drive(o DriveOpts) int {
 						a.mu.Unlock()
 					})
 				}
+				// lal can also end the process on purpose (its logger's Fatal calls os.Exit(1) after writing
+				// the line to lal's own log file): collect those lines before the scratch directory goes
+				lalFatal := ""
+				if werr != nil {
+					filepath.Walk(cs, func(p string, fi os.FileInfo, err error) error {
+						if err != nil || fi.IsDir() || filepath.Base(p) != "lal.log" || lalFatal != "" {
+							return nil
+						}
+						if b, e := os.ReadFile(p); e == nil {
+							for _, l := range strings.Split(string(b), "\n") {
+								if strings.Contains(l, "FATAL") || strings.Contains(l, "[F]") {
+									lalFatal = l
+								}
+							}
+						}
+						return nil
+					})
+				}
 				os.RemoveAll(cs)
 				if kp := os.Getenv("VERIF_KEEP_CHILD_LOG"); kp != "" {
 					os.WriteFile(fmt.Sprintf("%s.%d", kp, b), logb, 0644)
@@ -404,7 +422,18 @@ func Drive(o DriveOpts) int {
 				} else {
 					sig, msg, excerpt, harness := CrashSignature(logs)
 					a.mu.Lock()
-					if sig == "" {
+					if sig == "" && lalFatal != "" && code == 1 {
+						// the process was ended by lal's own fatal-log path
+						a.crashes++
+						m := reDigits.ReplaceAllString(reHex.ReplaceAllString(lalFatal, "X"), "N")
+						if k := strings.Index(m, "FATAL"); k >= 0 {
+							m = m[k:]
+						}
+						if len(m) > 80 {
+							m = m[:80]
+						}
+						a.viol = append(a.viol, foundViolation{Violation: Violation{Sig: "crash:lal-exit:" + strings.TrimSpace(m), What: "lal ended the process itself (os.Exit after a fatal log line): " + lalFatal + " | input: " + notes[open]}, Index: open, Kind: "crash", Log: lalFatal})
+					} else if sig == "" {
 						a.harness = append(a.harness, fmt.Sprintf("batch %d case %d: child exit %d without panic text; log tail: %s", b, open, code, tail(logs, 600)))
 					} else if harness {
 						a.harness = append(a.harness, fmt.Sprintf("batch %d case %d: harness-side panic %s\n%s", b, open, sig, excerpt))
